@@ -59,6 +59,15 @@ pub struct SenderObs {
     pub peer_max_payload: usize,
     /// (instant, payload length) of data packets received from the peer
     pub peer_payloads: Vec<(u64, usize)>,
+    /// (incremental bookkeeping that keeps `on_tx_data` cheap on cases with tens of thousands of segments)
+    /// sum of the current cuts of all numbers transmitted so far
+    cur_total: u64,
+    /// (instant, number) of every segment's first acknowledgement (cumulative or selective), in time order
+    ack_events: Vec<(u64, i32)>,
+    /// how many of `ack_events` are folded into `proven_frozen` (all strictly before the instant of the last query)
+    ack_events_done: usize,
+    proven_frozen: usize,
+    peer_prefix_max: Vec<usize>,
     /// application writes: (instant, cumulative bytes accepted) — optional, see `on_tx_data`
     pub writes: Vec<(u64, u64)>,
 }
@@ -72,7 +81,7 @@ pub enum TxKind {
 impl SenderObs {
     pub fn new(expected_first: u16, initial_wnd: u32, mss0: usize) -> Self {
         let st = AckState { cum: -1, sacked: BTreeSet::new(), wnd: initial_wnd, acked_bytes: 0, poss_recovery: false, poss_loss_event: false, sack_streak: 0, recovery_point: -1, dup_count: 0, last_pure: None, ever_sack: false, t_last_rx: 0, t_last_advance: 0, mss_now: mss0, n_rx: 0 };
-        SenderObs { first_seq: None, expected_first, segs: BTreeMap::new(), highest: -1, fin_rel: None, fin_times: vec![], prev: st.clone(), st, mss0, peer_max_payload: 0, peer_payloads: vec![], writes: vec![] }
+        SenderObs { first_seq: None, expected_first, segs: BTreeMap::new(), highest: -1, fin_rel: None, fin_times: vec![], prev: st.clone(), st, mss0, peer_max_payload: 0, peer_payloads: vec![], writes: vec![], cur_total: 0, ack_events: vec![], ack_events_done: 0, proven_frozen: 0, peer_prefix_max: vec![] }
     }
 
     /// unwrapped index of `seq` relative to the first data seq: resolved around the highest
@@ -110,15 +119,27 @@ impl SenderObs {
         // the proven size is therefore taken at the earliest instant the segment can have been cut — when the
         // application wrote the first of its bytes (if the caller supplied write times; else at transmission).
         let mss = if self.segs.get(&k).is_none_or(|g| g.lens.is_empty()) {
-            let offset: u64 = self.segs.range(..k).map(|(_, g)| *g.lens.first().unwrap_or(&0) as u64).sum();
-            let t_cut = self.writes.iter().find(|(_, cum)| *cum > offset).map(|(tw, _)| (*tw).min(t)).unwrap_or(t);
-            let mut m = self.mss0;
-            for g in self.segs.values() {
-                let Some(ta) = [g.cum_acked_at, g.sacked_at].into_iter().flatten().min() else { continue };
-                if ta > t_cut { continue; }
-                if let Some(i) = g.times.iter().rposition(|x| *x <= ta) { m = m.max(g.lens[i]); }
+            // (stream offset of this segment: the earlier numbers with their *current* cuts — an expired probe was
+            // re-cut shorter and its tail moved to the numbers behind it)
+            let offset: u64 = if k > self.highest { self.cur_total } else { self.segs.range(..k).map(|(_, g)| *g.lens.last().unwrap_or(&0) as u64).sum() };
+            let wi = self.writes.partition_point(|(_, cum)| *cum <= offset);
+            let t_cut = self.writes.get(wi).map(|(tw, _)| (*tw).min(t)).unwrap_or(t);
+            // acknowledgements strictly before this instant are final: fold them into the frozen maximum while they lie
+            // at or before the cut instant (cut instants do not decrease from one segment to the next)
+            let len_at = |segs: &BTreeMap<i32, Seg>, ta: u64, kk: i32| -> usize { segs.get(&kk).and_then(|g| g.times.iter().rposition(|x| *x <= ta).map(|i| g.lens[i])).unwrap_or(0) };
+            while let Some(&(ta, kk)) = self.ack_events.get(self.ack_events_done) {
+                if ta >= t || ta > t_cut { break; }
+                self.proven_frozen = self.proven_frozen.max(len_at(&self.segs, ta, kk));
+                self.ack_events_done += 1;
             }
-            let peer_max = self.peer_payloads.iter().filter(|(tp, _)| *tp <= t_cut).map(|(_, l)| *l).max().unwrap_or(0);
+            let mut m = self.mss0.max(self.proven_frozen);
+            // the rest (same instant as this transmission, or beyond the frozen prefix) is evaluated directly
+            for &(ta, kk) in &self.ack_events[self.ack_events_done..] {
+                if ta > t_cut { break; }
+                m = m.max(len_at(&self.segs, ta, kk));
+            }
+            let pi = self.peer_payloads.partition_point(|(tp, _)| *tp <= t_cut);
+            let peer_max = self.peer_payload_prefix_max(pi);
             m.max(peer_max)
         } else { 0 };
         let g = self.segs.entry(k).or_default();
@@ -126,10 +147,16 @@ impl SenderObs {
             g.first_payload = p.payload.clone();
             g.mss_at_first = mss;
         }
+        let prev_len = g.lens.last().copied().unwrap_or(0);
         g.lens.push(p.payload.len());
         g.times.push(t);
+        self.cur_total = self.cur_total + p.payload.len() as u64 - prev_len as u64;
         self.highest = self.highest.max(k);
         (k, kind)
+    }
+
+    fn peer_payload_prefix_max(&self, upto: usize) -> usize {
+        if upto == 0 { 0 } else { self.peer_prefix_max[upto - 1] }
     }
 
     pub fn on_tx_fin(&mut self, t: u64, p: &RefPacket) {
@@ -152,6 +179,8 @@ impl SenderObs {
             s.mss_now = s.mss_now.max(p.payload.len());
             self.peer_max_payload = self.peer_max_payload.max(p.payload.len());
             self.peer_payloads.push((t, p.payload.len()));
+            let pm = self.peer_prefix_max.last().copied().unwrap_or(0).max(p.payload.len());
+            self.peer_prefix_max.push(pm);
         }
         // an ack beyond what was sent acknowledges everything sent so far *and* (this is what the
         // implementation does) segments that are queued but were never transmitted: their numbers
@@ -163,6 +192,7 @@ impl SenderObs {
         if a > s.cum {
             for (k, g) in self.segs.range_mut((s.cum + 1)..=a) {
                 let _ = k;
+                if g.cum_acked_at.is_none() && g.sacked_at.is_none() { self.ack_events.push((t, *k)); }
                 g.cum_acked_at.get_or_insert(t);
                 s.acked_bytes += *g.lens.last().unwrap() as u64;
                 s.mss_now = s.mss_now.max(*g.lens.last().unwrap());
@@ -195,6 +225,7 @@ impl SenderObs {
                     let k = a_raw + 2 + i as i32;
                     if *b && k > s.cum {
                         if let Some(g) = self.segs.get_mut(&k) {
+                            if g.cum_acked_at.is_none() && g.sacked_at.is_none() { self.ack_events.push((t, k)); }
                             g.sacked_at.get_or_insert(t);
                             s.mss_now = s.mss_now.max(*g.lens.last().unwrap());
                             s.sacked.insert(k);
